@@ -96,6 +96,16 @@ register(PropertySpec(
              "(shared with C20) a domain of distinct objects stays distinct: the identifier of a wrapped value is its identity, and an identifier carried in _id_ is believed only of the package's own expressions"),
         Rule("HOOK-SELF", _lazy("subquery", "rule_hook_self"), 3,
              "(shared with C15) the attribute hook builds a new node per mention: one memoised attribute node would be negated in place for every mention at once"),
+        Rule("EVAL-PARENT-RESET", _lazy("binding", "rule_eval_parent_reset"), 1,
+             "what an evaluation leaves in an operand's _eval_parent_ is wiped by the per-evaluation reset (evaluators that tell their operands nothing fall back to the graph parent)"),
+        Rule("DEDUP-TESTS-YIELDED-ROW", _lazy("binding", "rule_dedup_tests_yielded_row"), 4,
+             "the row the duplicate test looks at is the row that is handed on when it answers 'new' (path rule from every call of the test to the next yield)"),
+        Rule("PULLED-RECORD", _lazy("lazy", "rule_pulled_record"), 3,
+             "the record of what was pulled from a one-shot source is appended to only with the value just pulled, and emptied only by clear()"),
+        Rule("REQUIRED-ASK-AS-SELF", _lazy("binding", "rule_required_ask_as_self"), 3,
+             "a node asks its parent what to keep of its rows in its own name (the parent recognises the asking operand by identity)"),
+        Rule("BOUND-AGAIN-ONCE", _lazy("values", "rule_bound_again_once"), 3,
+             "an expression object that finds itself bound already answers once for that binding and ends (it does not fall through into the ordinary evaluation)"),
     ],
     explanation="Decides the clause 'the condition vocabulary denotes the ordinary Python operator': the node each "
                 "public comparison/membership entry constructs (arguments mapped to dataclass fields through the MRO "
@@ -157,6 +167,8 @@ register(PropertySpec(
              "(shared with C05) a replay from a result cache hands on the false rows exactly when the evaluation it answers asked for them (below a negation every row of the original is a false row)"),
         Rule("HOOK-SELF", _lazy("subquery", "rule_hook_self"), 3,
              "(shared with C15) the attribute hook builds a new node per mention: not_(x.flag) must not invert the other bare uses of x.flag"),
+        Rule("DEDUP-TRUTH-UP", _lazy("binding", "rule_dedup_truth_up"), 2,
+             "(shared with C02) an operator asks its parent what to keep under the truth it can still have: below a negation the right side of the rewritten else-if must stay in the key"),
     ],
     explanation="Negation is a rewrite at construction time, so it is a function on syntax and is decided from the "
                 "source: the inverse-operator table is extracted by abstract evaluation of the setter's CFG (match / if "
@@ -314,6 +326,12 @@ register(PropertySpec(
              "the per-evaluation reset reaches variables that only a conclusion mentions"),
         Rule("REPLAY-OR-EVALUATE", _lazy("cacheidx", "rule_replay_or_evaluate"), 2,
              "per row of its first operand an operator either replays the cached rows of the second or evaluates it, then goes on with the next row (CFG path rule at every per-row replay site)"),
+        Rule("EVAL-PARENT-RESET", _lazy("binding", "rule_eval_parent_reset"), 1,
+             "what an evaluation leaves in an operand's _eval_parent_ is wiped by the per-evaluation reset (evaluators that tell their operands nothing fall back to the graph parent)"),
+        Rule("INFER-MARK", _lazy("ruletree", "rule_infer_mark"), 5,
+             "(shared with C12) a rule records as 'inferred for this evaluation' only what it marked itself: a variable that is inferred already is not un-marked by the reset after an abandoned evaluation"),
+        Rule("PULLED-RECORD", _lazy("lazy", "rule_pulled_record"), 3,
+             "the record of what was pulled from a one-shot source is appended to only with the value just pulled, and emptied only by clear()"),
     ],
     explanation="History independence is absence of residue on the shared expression nodes. Decided: where residue is "
                 "written (discovered mechanically from dataclass fields and mutation sites reachable from evaluation "
@@ -384,6 +402,8 @@ register(PropertySpec(
              "(shared with C13) a single object given as the domain is kept when it is an INSTANCE of the type (subclasses included)"),
         Rule("NEG-TRUTH", _lazy("negation", "rule_neg_truth"), 16,
              "(shared with C03) what a negated predicate yields is decided by its (inverted) truth, not by the truthiness of its output"),
+        Rule("DEDUP-TESTS-YIELDED-ROW", _lazy("binding", "rule_dedup_tests_yielded_row"), 4,
+             "the row the duplicate test looks at is the row that is handed on when it answers 'new' (path rule from every call of the test to the next yield)"),
     ],
     explanation="The three outcomes of `the` are decided by a typestate interpretation of its evaluator over the finite "
                 "state space (result None/solution, solutions consumed 0/1/>=2, _is_false_), exception classes resolved "
@@ -494,6 +514,8 @@ register(PropertySpec(
              "the selectors built by refinement / alternative never drop a TRUE row because of the values of the variables the conclusions mention (two such assignments can select different conclusions)"),
         Rule("DESCRIPTOR-SIBLINGS", _lazy("ruletree", "rule_descriptor_siblings"), 3,
              "entity and set_of are one implementation: a type test on the kind of a descriptor covers every kind (same test or the arms of its chain), so a rule or query written with set_of takes the paths the same one written with entity takes"),
+        Rule("EXPR-IDENTITY", _lazy("ruletree", "rule_expr_identity"), 1,
+             "engine code compares nodes by identity: == / != on a node-valued slot would build a (truthy) comparison expression"),
     ],
     explanation="Attaching a branch rewires the condition tree in place; evaluation follows the left/right fields, not "
                 "the graph edges, so a selector that is attached in the graph but not stored in its parent's operand slot "
@@ -675,6 +697,8 @@ register(PropertySpec(
              "the duplicate trackers for true and for false rows of a node are two objects wherever the by-truth mapping is built"),
         Rule("DEDUP-UNDER-ROW-TRUTH", _lazy("binding", "rule_dedup_under_row_truth"), 5,
              "(shared with C02) a replayed row is tested for duplicates under its own truth"),
+        Rule("DEDUP-TESTS-YIELDED-ROW", _lazy("binding", "rule_dedup_tests_yielded_row"), 4,
+             "the row the duplicate test looks at is the row that is handed on when it answers 'new' (path rule from every call of the test to the next yield)"),
     ],
     explanation="Decides that the runtime switch governs reads and writes consistently: the asymmetric state (reads "
                 "unguarded, writes guarded) changes results because an empty lookup marks everything covered. Not "
@@ -740,6 +764,8 @@ register(PropertySpec(
              "the inferred mark of a shared variable is given by evaluation code and taken back, never at construction time"),
         Rule("VALUE-IDENTITY", _lazy("extra", "rule_value_identity"), 8,
              "(shared with C20) a domain of distinct objects stays distinct: the identifier of a wrapped value is its identity, and an identifier carried in _id_ is believed only of the package's own expressions"),
+        Rule("PULLED-RECORD", _lazy("lazy", "rule_pulled_record"), 3,
+             "the record of what was pulled from a one-shot source is appended to only with the value just pulled, and emptied only by clear()"),
     ],
     explanation="Registry discipline is ownership: a single writer, on a must-pass-through path of the concrete "
                 "constructor arm, keyed by the runtime class; the symbolic arm provably (call-graph closure) cannot "
@@ -799,6 +825,8 @@ register(PropertySpec(
              "(shared with C02) union / difference build new sets: for_all computes its free variables as a difference of cached variable sets"),
         Rule("BIND-THREAD", _lazy("binding", "rule_bind_thread"), 30,
              "(shared with C01) the universal expression is evaluated under the incoming binding (a correlated universal ranges over the values of the bound variable only)"),
+        Rule("EVAL-PARENT-RESET", _lazy("binding", "rule_eval_parent_reset"), 1,
+             "what an evaluation leaves in an operand's _eval_parent_ is wiped by the per-evaluation reset (evaluators that tell their operands nothing fall back to the graph parent)"),
     ],
     explanation="Universal quantification is implemented as a running intersection; that the accumulated set can only "
                 "shrink, is seeded once and is emptied by a value with no satisfying binding is a typestate property of "
@@ -935,6 +963,18 @@ register(PropertySpec(
              "(shared with C20) a domain of distinct objects stays distinct: the identifier of a wrapped value is its identity, and an identifier carried in _id_ is believed only of the package's own expressions"),
         Rule("DESCRIPTOR-SIBLINGS", _lazy("ruletree", "rule_descriptor_siblings"), 3,
              "entity and set_of are one implementation: a type test on the kind of a descriptor covers every kind (same test or the arms of its chain), so a rule or query written with set_of takes the paths the same one written with entity takes"),
+        Rule("EVAL-PARENT-RESET", _lazy("binding", "rule_eval_parent_reset"), 1,
+             "what an evaluation leaves in an operand's _eval_parent_ is wiped by the per-evaluation reset (evaluators that tell their operands nothing fall back to the graph parent)"),
+        Rule("DEDUP-TESTS-YIELDED-ROW", _lazy("binding", "rule_dedup_tests_yielded_row"), 4,
+             "the row the duplicate test looks at is the row that is handed on when it answers 'new' (path rule from every call of the test to the next yield)"),
+        Rule("QUANT-NOT-STRIPPED", _lazy("subquery", "rule_quant_not_stripped"), 1,
+             "a sub-query in the list of selected variables is a conjunct of the enclosing query whenever it is replaced by its variable (handed on unconditionally)"),
+        Rule("REQUIRED-ASK-AS-SELF", _lazy("binding", "rule_required_ask_as_self"), 3,
+             "a node asks its parent what to keep of its rows in its own name (the parent recognises the asking operand by identity)"),
+        Rule("OPDEN", _lazy("opden", "rule_opden"), 8,
+             "(shared with C01) each comparison operator builds the comparison of the operator it is (>= is not >)"),
+        Rule("BOUND-AGAIN-ONCE", _lazy("values", "rule_bound_again_once"), 3,
+             "an expression object that finds itself bound already answers once for that binding and ends (it does not fall through into the ordinary evaluation)"),
     ],
     explanation="An implicit join is a join only if every operator threads the binding it received to its operands and "
                 "keeps everything its operands bound. Both are provenance facts on the evaluation call sites and the "
@@ -996,6 +1036,10 @@ register(PropertySpec(
              "(shared with C02) a row handed on is not the dict the operand still being iterated runs under (one row per element of the flattened collection)"),
         Rule("MAPPING-NOT-MEMOISED", _lazy("aggregates", "rule_mapping_not_memoised"), 4,
              "the mappings read the user object when they are evaluated: nothing on the path of _apply_mapping_ is memoised per parent"),
+        Rule("EXPR-IDENTITY", _lazy("ruletree", "rule_expr_identity"), 1,
+             "engine code compares nodes by identity: == / != on a node-valued slot would build a (truthy) comparison expression"),
+        Rule("REPLAY-DEDUP", _lazy("cacheidx", "rule_replay_dedup"), 3,
+             "(shared with C05) a replay suppresses duplicate true rows exactly when the evaluating path it stands for does: the same object twice in one collection stays two rows on re-evaluation"),
     ],
     explanation="UNNEST is 'one row per inner element, all other variables keep the binding that produced it': the "
                 "first half is a path property of one small generator, the second is the BIND-KEEP provenance rule at "
@@ -1035,6 +1079,10 @@ register(PropertySpec(
              "(shared with C04) every evaluation of a quantifier resets the duplicate-suppression state below it first: with stale state the next evaluation pulls past the prefix it needs"),
         Rule("ITER-SNAPSHOT", _lazy("lazy", "rule_iter_snapshot"), 1,
              "(shared with C14) the replay of the memoised prefix iterates a snapshot, so that another evaluation pulling new elements meanwhile does not break a suspended one"),
+        Rule("PULLED-RECORD", _lazy("lazy", "rule_pulled_record"), 3,
+             "the record of what was pulled from a one-shot source is appended to only with the value just pulled, and emptied only by clear()"),
+        Rule("EXPRESSION-NOT-ITERATED", _lazy("lazy", "rule_expression_not_iterated"), 5,
+             "no expression object (an element of selected_variables / child variables, an expression parameter) is handed to something that iterates it: iterating a Variable enumerates its domain"),
     ],
     explanation="Laziness is preserved iff nothing on the path from the user's domain to the user's next() materialises a "
                 "stream. That is a may-materialise taint analysis over every function that handles evaluation streams or "
@@ -1121,6 +1169,8 @@ register(PropertySpec(
              "(shared with C16) every element of a flattened collection has an identity of its own: an instance is built per satisfying assignment, not per parent"),
         Rule("DESCRIPTOR-SIBLINGS", _lazy("ruletree", "rule_descriptor_siblings"), 3,
              "entity and set_of are one implementation: a type test on the kind of a descriptor covers every kind (same test or the arms of its chain), so a rule or query written with set_of takes the paths the same one written with entity takes"),
+        Rule("PULLED-RECORD", _lazy("lazy", "rule_pulled_record"), 3,
+             "the record of what was pulled from a one-shot source is appended to only with the value just pulled, and emptied only by clear()"),
     ],
     explanation="All clauses are weak but necessary: arguments evaluated under the current binding, one construction "
                 "per combination, no retrieval instead of construction for inferred variables, existing objects passed "
@@ -1178,6 +1228,8 @@ register(PropertySpec(
              "(shared with C10) rows of the condition are completed over ALL the variables they leave unbound before the intersection, whichever branch of an or_ produced them"),
         Rule("REENTRANT-FLAG", _lazy("values", "rule_reentrant_flag"), 9,
              "(shared with C01) one condition object in two operands of an and_: each evaluation of it reads the request for false rows from its own argument, so swapping the operands does not change which rows it yields"),
+        Rule("QUANT-NOT-STRIPPED", _lazy("subquery", "rule_quant_not_stripped"), 1,
+             "a sub-query in the list of selected variables is a conjunct of the enclosing query whenever it is replaced by its variable (handed on unconditionally)"),
     ],
     explanation="Two of the six listed rewrites are decided: mirrored comparisons and contains/in_, by the OPDEN "
                 "denotation rule (C01). Commutativity/associativity of and/or, declaration/selection order and domain "
@@ -1246,6 +1298,12 @@ register(PropertySpec(
              "(shared with C18; recorded finding) the else-if offers its right side only the bindings for which its left side yielded a row: a sub-query in value position on the left of | yields none for the values it rejects"),
         Rule("REENTRANT-FLAG", _lazy("values", "rule_reentrant_flag"), 9,
              "(shared with C01) a sub-query object used twice in one condition: each evaluation reads the request for false rows from its own argument"),
+        Rule("QUANT-NOT-STRIPPED", _lazy("subquery", "rule_quant_not_stripped"), 1,
+             "a sub-query in the list of selected variables is a conjunct of the enclosing query whenever it is replaced by its variable (handed on unconditionally)"),
+        Rule("REQUIRED-ASK-AS-SELF", _lazy("binding", "rule_required_ask_as_self"), 3,
+             "a node asks its parent what to keep of its rows in its own name (the parent recognises the asking operand by identity)"),
+        Rule("BOUND-AGAIN-ONCE", _lazy("values", "rule_bound_again_once"), 3,
+             "an expression object that finds itself bound already answers once for that binding and ends (it does not fall through into the ordinary evaluation)"),
     ],
     explanation="Decides the structural clauses of the three mechanisms the property is anchored in: (1) a quantifier node in "
                 "the middle of a tree is transparent for truth (same truth table as its conditions, request for false rows passed "
